@@ -64,7 +64,12 @@ def run(chk):
     chk.cov["per_model"] = doc.get("table", [])
     for f in doc["failures"]:
         chk.violation(f["signature"], f["what"], {"case": f["case"], "search": "search_C04.py"}, True)
-    if chk.broken and not doc["failures"]:
+    # signatures of families that ARE invariant on the unchanged tree: a failure there is a fresh
+    # concrete input; the others also fail on the unchanged tree and cannot explain a broken proof
+    fresh = [f for f in doc["failures"]
+             if f["signature"].startswith(("single_", "exception_", "wignerD", "wignerd"))
+             or f["signature"].startswith("multi_topology_unaligned_spinless_helicity_isobars_only")]
+    if chk.broken and not fresh:
         b = chk.broken[0]
         chk.violation("unproved:" + b["item"], f"{b['file']}:{b['item']} no longer checks",
                       {"theorem": b["item"], "file": b["file"], "coqc_output": b["coqc_output"]}, False)
